@@ -12,12 +12,13 @@ LEVEL_TEXT = ("Lean theorems: per operation the partial aggregates form a monoid
               "homomorphism, hence for every table, query, partition into servers x intervals the merged result equals the central "
               "evaluation (count/sum/avg/min/max in any arrival order; last/len when partials arrive in line order, otherwise one of the "
               "candidates); tied to the code by a differential run of the real pipeline: server Aggregate (MakeFields, where, set, "
-              "aggregate, Serialize) -> client Aggregate -> GlobalGroupSet merge, on generated tables in default/generickv/csv format")
+              "aggregate, Serialize) -> client Aggregate -> GlobalGroupSet merge, on generated tables in default/generickv/csv format; the whole pipeline: C05_pipeline (distributed = central as group maps for every query and every list of partial results), C05_pipeline_any_arrival_order, C05_pipeline_value; tie G: C05_generated_aggregate_refines_model / C05_generated_merge_refines_model — AggregateSet.Aggregate and Merge as translated from the working tree are contribution + combine / mergeSet (gen.agg validates the translator); one case in six runs the real aggregator goroutines (Start, aggregateAndSerialize, interim Serialize); outfile cases (c15.write) for the final report")
 TRUSTED = ["Lean 4 kernel", "axioms: propext, Quot.sound, Classical.choice (at most)", "fact extractor (delimiters)",
            "overlay harness + dtmodel driver + this diff",
            "modelled not verified: float64 arithmetic (the generator emits integers only, so every sum is exact), strconv.ParseFloat/"
            "FormatFloat, map iteration order (dump sorted), serialisation round trip of a message (exercised through the real Serialize/"
-           "makeFields, not proved), md5sum (not generated), rendering of result rows / order by / limit (not in this op)"]
+           "makeFields, not proved), md5sum (not generated), rendering of result rows / order by / limit (not in this op)",
+           "the Go-to-Lean translator extract/translate.go and its prelude Model/GoRT.lean (int/uint64/float64 as Int, strings as bytes, maps as association lists; translated and real functions run on the same scripts on every run)"]
 ASSUMPTIONS = ["every MergeNoblock succeeds (single client goroutine; the concurrent case is C06)", "csv input is one file per server"]
 RULE = ("seeded tables: 0..40 lines with fields x,y,host,msg (missing / non-numeric with tunable probability), split into 1..4 servers x 1..3 "
         "intervals incl. empty parts; queries over every aggregation, group by 0..2 fields, where clauses of both kinds, set clauses; "
